@@ -17,6 +17,18 @@ pub struct StepCase {
     /// Some(v): the action is "request interrupt v, then poll" (the acceptance of an interrupt at an
     /// instruction boundary) instead of executing the instruction at pc
     pub irq: Option<u8>,
+    /// Some: before the case is set up, this *failing* step is executed on the same emulator (its result is
+    /// ignored, its memory effects are undone). An instruction that fails must leave nothing behind that
+    /// changes what the next instruction does.
+    pub primer: Option<Primer>,
+}
+
+/// a step that ends in an error: `code` at `pc`, every register = `reg`
+#[derive(Clone, Debug, PartialEq)]
+pub struct Primer {
+    pub pc: u32,
+    pub code: Vec<u8>,
+    pub reg: u32,
 }
 
 impl StepCase {
@@ -29,6 +41,7 @@ impl StepCase {
             "patches": self.patches.iter().map(|(a, b)| json!([a, hex(b)])).collect::<Vec<_>>(),
             "bus": [self.bus.abwcr, self.bus.astcr, self.bus.wcrh, self.bus.wcrl, self.bus.drcra],
             "irq": self.irq,
+            "primer": self.primer.as_ref().map(|p| json!({"pc": p.pc, "code": hex(&p.code), "reg": p.reg})),
         })
     }
     pub fn from_json(v: &Value) -> Option<StepCase> {
@@ -52,12 +65,17 @@ impl StepCase {
                 .collect(),
             bus: BusCfg { abwcr: g(0), astcr: g(1), wcrh: g(2), wcrl: g(3), drcra: g(4) },
             irq: v.get("irq").and_then(|x| x.as_u64()).map(|x| x as u8),
+            primer: v.get("primer").filter(|p| p.is_object()).and_then(|p| Some(Primer { pc: p.get("pc")?.as_u64()? as u32, code: unhex(p.get("code")?.as_str()?)?, reg: p.get("reg")?.as_u64()? as u32 })),
         })
     }
     /// human-readable one-line rendering for evidence samples
     pub fn brief(&self) -> String {
         format!(
-            "{}code={} @{:06x} er=[{}] ccr={:02x}{}",
+            "{}{}code={} @{:06x} er=[{}] ccr={:02x}{}",
+            match &self.primer {
+                Some(p) => format!("after-failing-step[{} @{:06x} regs={:08x}] ", hex(&p.code), p.pc, p.reg),
+                None => String::new(),
+            },
             match self.irq {
                 Some(v) => format!("irq={} ", v),
                 None => String::new(),
@@ -309,9 +327,36 @@ fn compare(case: &StepCase, pre: &PreImage, r: &RefRun, obs: &Observed, d_emu: &
     }
 }
 
+/// Execute a step that fails (fetch fault, unimplemented opcode, access fault...) and undo its memory effects.
+/// Whatever it returns is not judged here (C15 / C07 / C09 judge failing steps); what matters is that the
+/// case that follows on the same emulator behaves as if the failing step had never happened.
+pub fn run_primer(emu: &mut Emu, p: &Primer, case: &StepCase) {
+    let addrs: Vec<u32> = (0..p.code.len() as u32).map(|i| p.pc.wrapping_add(i)).collect();
+    for (i, b) in p.code.iter().enumerate() {
+        emu.set_byte(p.pc.wrapping_add(i as u32), *b);
+    }
+    emu.set_bus_cfg(&case.bus);
+    emu.cpu.er = [p.reg; 8];
+    emu.set_ccr(case.ccr);
+    emu.set_pc(p.pc);
+    emu.clear_write_log();
+    let r = emu.step();
+    let log: Vec<u32> = emu.cpu.bus.verif_write_log.clone();
+    emu.restore(addrs.iter());
+    emu.restore(log.iter());
+    if matches!(r, EmuResult::Panic(_)) || log.iter().any(|a| is_peripheral_reg(*a)) || emu.dirty_hidden {
+        emu.soft_reset();
+    }
+    let _ = emu.drain_msgs();
+    emu.clear_write_log();
+}
+
 /// Execute `case` on the emulator and on the reference and judge it. Leaves the emulator's memory
 /// equal to the baseline again (or rebuilt).
 pub fn judge(emu: &mut Emu, case: &StepCase, asp: &Aspects, open_quirks: &[Quirk]) -> Judged {
+    if let Some(p) = &case.primer {
+        run_primer(emu, p, case);
+    }
     let pre = pre_image(case);
     // --- set up the emulator
     for (&a, &v) in pre.map.iter() {
